@@ -9,6 +9,7 @@ CONSTANT AdminSet <- Adm2
 CONSTANT MaxSetFn = 1
 CONSTANT MaxRuns = 2
 CONSTANT MaxWrites = 2
+CONSTANT Observe = FALSE
 CONSTANT Dev <- Ideal
 SPECIFICATION EnumSpec
 INVARIANT Export
